@@ -82,6 +82,8 @@ def in_domain(name, value, n=None):
     if lo is None:
         return True
     if kind == "int":
+        if value in (INF, -INF):
+            return False      # no integer: 'unlimited' is not a documented value
         value = int(value)    # sizes / limits are integers: 0.5 means 0
     if lo_open and not value > lo:
         return False
@@ -111,10 +113,11 @@ def lattice(name, n=None):
         return [("below", lo_ - 1), ("at_lo", lo_), ("typical", min(
             2 * n + 1, hi_)), ("at_hi", hi_), ("above", hi_ + 1), ("zero", 0),
             ("negative", -3), ("above_fraction", hi_ + 0.5),
-            ("below_fraction", lo_ - 0.5)]
+            ("below_fraction", lo_ - 0.5), ("inf", INF)]
     if kind == "int":
         return [("below", -1), ("at", 0), ("just_inside", 1), ("typical", 40),
-                ("large", 10**6), ("fraction", 0.5), ("nan", math.nan)]
+                ("large", 10**6), ("fraction", 0.5), ("nan", math.nan),
+                ("inf", INF)]
     if name == "target":
         return [("-inf", -INF), ("typical", 0.5), ("inf", INF)]
     if name == "feasibility_tol":
